@@ -187,32 +187,33 @@ Proof.
     destruct Hinv as [(mid & Hs & Hm) Hh Hpay Hout Hph].
     assert (Hne : early_phase (phase s) = true -> False) by (intros He; specialize (Hph He); congruence).
     rewrite Ew in Hm. cbn in Hm. pose proof (Hh o Ew) as Hshape.
-    rewrite stamp_o_typ, stamp_o_len.
+    rewrite stamp_o_len.
+    assert (Hout' : forall o', In o' (out s ++ [stamp_o cfg (version s) o]) -> own_shape o').
+    { intros o' Hin. apply in_app_or in Hin. destruct Hin as [Hin|[Hin|[]]]; [now apply Hout|].
+      subst o'. intros Hown. rewrite stamp_o_own in Hown. rewrite stamp_o_typ, stamp_o_len. auto. }
+    assert (Haf : forall w, w = WParked \/ w = WTop -> mid_ok w [] /\ (forall o0, w = WHolding o0 -> own_shape o0) /\
+                  (forall o0, w = WPayload o0 -> is_own o0 = false) /\ (w = WNone -> False)).
+    { intros w [->| ->]; repeat split; try (intros; discriminate). }
+    assert (Hafr : after_frame (stamp_o cfg (version s) o) = WParked \/ after_frame (stamp_o cfg (version s) o) = WTop).
+    { unfold after_frame. destruct (f_typ _ =? _); auto. }
     destruct (is_own o) eqn:Eown.
-    + (* an acknowledgement: header-only, not CloseConnection *)
-      destruct (Hshape Eown) as (Ht & Hl). rewrite Ht, Hl. cbn [N.eqb T_KeepAliveAck T_CloseConnection Pos.eqb].
-      subst mid.
-      constructor; st_simpl_goal; try (intros; discriminate).
-      * exists []. split; [|reflexivity].
+    + (* an acknowledgement: header-only *)
+      destruct (Hshape Eown) as (Ht & Hl). rewrite Hl. cbn [N.eqb]. subst mid.
+      destruct (Haf _ Hafr) as (A & B & C & D).
+      constructor; st_simpl_goal; try assumption.
+      * exists []. split; [|exact A].
         rewrite (ka_enqueued_same s) by reflexivity.
         rewrite (acked_app s (stamp_o cfg (version s) o)) by reflexivity.
         rewrite stamp_o_own, Eown, stamp_o_id. rewrite Hs. now rewrite <- !app_assoc.
-      * intros o' Hin. apply in_app_or in Hin. destruct Hin as [Hin|[Hin|[]]]; [now apply Hout|].
-        subst o'. intros _. rewrite stamp_o_typ, stamp_o_len. auto.
       * intros He. exfalso. auto.
     + subst mid.
-      assert (Hsplit : forall s', ka_log s' = ka_log s -> out s' = out s ++ [stamp_o cfg (version s) o] ->
-                        ka_enqueued s' = acked s' ++ [] ++ ackq s).
-      { intros s' E1 E3. rewrite (ka_enqueued_same s s' E1), (acked_app s _ s' E3), stamp_o_own, Eown, app_nil_r. exact Hs. }
-      assert (Hout' : forall o', In o' (out s ++ [stamp_o cfg (version s) o]) -> own_shape o').
-      { intros o' Hin. apply in_app_or in Hin. destruct Hin as [Hin|[Hin|[]]]; [now apply Hout|].
-        subst o'. intros Hown. rewrite stamp_o_own in Hown. congruence. }
-      destruct (f_typ (o_frame o) =? T_CloseConnection); [|destruct (f_len (o_frame o) =? 0)].
-      * constructor; st_simpl_goal; try (intros; discriminate); try assumption.
-        -- exists []. split; [apply Hsplit; reflexivity | reflexivity].
-        -- intros He. exfalso. auto.
-      * constructor; st_simpl_goal; try (intros; discriminate); try assumption.
-        -- exists []. split; [apply Hsplit; reflexivity | reflexivity].
+      destruct (f_len (o_frame o) =? 0).
+      * destruct (Haf _ Hafr) as (A & B & C & D).
+        constructor; st_simpl_goal; try assumption.
+        -- exists []. split; [|exact A].
+           rewrite (ka_enqueued_same s) by reflexivity.
+           rewrite (acked_app s (stamp_o cfg (version s) o)) by reflexivity.
+           rewrite stamp_o_own, Eown, app_nil_r. exact Hs.
         -- intros He. exfalso. auto.
       * constructor; st_simpl_goal; try (intros; discriminate); try assumption.
         -- exists []. split; [|reflexivity].
@@ -224,13 +225,17 @@ Proof.
     destruct Hinv as [(mid & Hs & Hm) Hh Hpay Hout Hph].
     assert (Hne : early_phase (phase s) = true -> False) by (intros He; specialize (Hph He); congruence).
     rewrite Ew in Hm. cbn in Hm. subst mid. pose proof (Hpay o Ew) as Hno.
-    constructor; st_simpl_goal; try (intros; discriminate).
-    + exists []. split; [|reflexivity].
-      rewrite (ka_enqueued_same s) by reflexivity. rewrite (acked_app s o) by reflexivity.
-      rewrite Hno, app_nil_r. exact Hs.
-    + intros o' Hin. apply in_app_or in Hin. destruct Hin as [Hin|[Hin|[]]]; [now apply Hout|].
-      subst o'. intros Hown. congruence.
-    + intros He. exfalso. auto.
+    assert (Hafr : after_frame o = WParked \/ after_frame o = WTop).
+    { unfold after_frame. destruct (f_typ _ =? _); auto. }
+    assert (Hout' : forall o', In o' (out s ++ [o]) -> own_shape o').
+    { intros o' Hin. apply in_app_or in Hin. destruct Hin as [Hin|[Hin|[]]]; [now apply Hout|].
+      subst o'. intros Hown. congruence. }
+    destruct Hafr as [E|E]; rewrite E;
+      (constructor; st_simpl_goal; try (intros; discriminate); try assumption;
+       [ exists []; split; [|reflexivity];
+         rewrite (ka_enqueued_same s) by reflexivity; rewrite (acked_app s o) by reflexivity;
+         rewrite Hno, app_nil_r; exact Hs
+       | intros He; exfalso; auto ]).
   - (* WriteFail *) unfold step_writefail. pose proof Hinv as Hcopy.
     destruct Hinv as [(mid & Hs & Hm) Hh Hpay Hout Hph].
     assert (Hne : writer s <> WNone -> early_phase (phase s) = true -> False) by (intros Hw He; auto).
